@@ -165,3 +165,32 @@ func (w *World) Adopt(p *channel.Params, ownIdx int, ph channel.Phase, cur *chan
 	rt.Assume(err == nil)
 	return ch
 }
+
+// ParamsWith builds two-party parameters with an arbitrary counterparty.
+func (w *World) ParamsWith(peer *simwallet.Account, ownIdx int, nonce int64, virtual bool) *channel.Params {
+	parts := make([]map[wallet.BackendID]wallet.Address, 2)
+	parts[ownIdx] = map[wallet.BackendID]wallet.Address{channel.TestBackendID: w.Own.Address()}
+	parts[1-ownIdx] = map[wallet.BackendID]wallet.Address{channel.TestBackendID: peer.Address()}
+	p, err := channel.NewParams(60, parts, channel.NoApp(), big.NewInt(nonce), !virtual, virtual, channel.Aux{})
+	rt.Assume(err == nil)
+	return p
+}
+
+// SignAs signs with an arbitrary account.
+func SignAs(acc *simwallet.Account, s *channel.State) wallet.Sig {
+	sig, err := channel.Sign(acc, s, channel.TestBackendID)
+	rt.Assume(err == nil)
+	return sig
+}
+
+// AdoptWith is Adopt for a channel with an arbitrary counterparty.
+func (w *World) AdoptWith(peer *simwallet.Account, peerWire map[wallet.BackendID]wire.Address, p *channel.Params, ownIdx int, ph channel.Phase, cur *channel.State, parent *client.Channel) *client.Channel {
+	sigs := make([]wallet.Sig, 2)
+	sigs[ownIdx], sigs[1-ownIdx] = SignAs(w.Own, cur), SignAs(peer, cur)
+	ps := make([]map[wallet.BackendID]wire.Address, 2)
+	ps[ownIdx], ps[1-ownIdx] = w.OwnWire, peerWire
+	src := &gen.Source{IdxV: channel.Index(ownIdx), ParamsV: p, PhaseV: ph, Current: channel.Transaction{State: cur, Sigs: sigs}}
+	ch, err := w.Client.VerifAdoptChannel(src, ps, parent)
+	rt.Assume(err == nil)
+	return ch
+}
